@@ -1649,7 +1649,7 @@ pub fn run(opts: &Opts) {
             run_case(&mut out, s, &base, cyc, 30);
         }
     } else {
-        let cases = if opts.thorough() { 300 * opts.scale } else { 14 * opts.scale };
+        let cases = if opts.thorough() { 200 * opts.scale } else { 14 * opts.scale };
         for i in 0..cases {
             run_case(&mut out, opts.seed.wrapping_mul(1_000_003).wrapping_add(i), &base, cyc, 30);
         }
